@@ -1,0 +1,92 @@
+//! Verification hooks. Compiled only with `--cfg khttp_verif`; nothing here exists in a normal build.
+//!
+//! A process-global, totally ordered event log fed from the synchronisation points of
+//! `threadpool.rs` and `server/epoll.rs`, plus a public wrapper around the crate-private
+//! `ThreadPool` so that an external harness can drive the pool directly.
+//!
+//! Placement discipline: events of acquire-type operations (lock taken, CAS succeeded, job
+//! begins) are emitted AFTER the operation, events of release-type operations (unlock, release
+//! store, epoll_ctl DEL, drop of the stream, free of a record, job ends) BEFORE it, so that the
+//! log order is consistent with the happens-before order of the operations themselves.
+use std::cell::Cell;
+use std::sync::atomic::{AtomicUsize, Ordering};
+use std::sync::Mutex;
+
+pub use crate::threadpool::Task;
+
+static LOG: Mutex<Vec<String>> = Mutex::new(Vec::new());
+static NEXT_WORKER: AtomicUsize = AtomicUsize::new(0);
+
+thread_local! {
+    static WORKER_ID: Cell<usize> = const { Cell::new(usize::MAX) };
+}
+
+pub fn emit(ev: String) {
+    LOG.lock().unwrap().push(ev);
+}
+
+/// Returns and clears the event log.
+pub fn take() -> Vec<String> {
+    std::mem::take(&mut *LOG.lock().unwrap())
+}
+
+/// Clears the log and restarts worker numbering (call before creating a pool / server).
+pub fn reset() {
+    LOG.lock().unwrap().clear();
+    NEXT_WORKER.store(0, Ordering::SeqCst);
+}
+
+pub(crate) fn next_worker_id() -> usize {
+    NEXT_WORKER.fetch_add(1, Ordering::SeqCst)
+}
+
+pub(crate) fn set_worker_id(id: usize) {
+    WORKER_ID.with(|c| c.set(id));
+}
+
+/// Index (spawn order) of the pool worker running on this thread.
+pub fn worker_id() -> usize {
+    WORKER_ID.with(|c| c.get())
+}
+
+/// Emits an event when dropped (used to log "about to release the receiver lock").
+pub(crate) struct OnDrop(pub String);
+
+impl Drop for OnDrop {
+    fn drop(&mut self) {
+        emit(std::mem::take(&mut self.0));
+    }
+}
+
+/// A received job together with the worker that received it: logs the receipt, and the end of `run`.
+pub(crate) struct Traced<J: Task> {
+    job: J,
+    worker: usize,
+    id: u64,
+}
+
+impl<J: Task> Traced<J> {
+    pub(crate) fn new(job: J, worker: usize) -> Self {
+        let id = job.verif_id();
+        emit(format!("r{}:{}", worker, id));
+        Traced { job, worker, id }
+    }
+
+    pub(crate) fn run(self) {
+        self.job.run();
+        emit(format!("F{}:{}", self.worker, self.id));
+    }
+}
+
+/// Public wrapper around the crate-private thread pool.
+pub struct VerifPool<J: Task>(crate::threadpool::ThreadPool<J>);
+
+impl<J: Task> VerifPool<J> {
+    pub fn new(size: usize) -> Self {
+        VerifPool(crate::threadpool::ThreadPool::new(size))
+    }
+
+    pub fn execute(&self, job: J) {
+        self.0.execute(job)
+    }
+}
